@@ -154,7 +154,7 @@ fn base_edge(d: &Diagram) -> usize {
     (0..4).map(|s| e[s]).min().unwrap()
 }
 
-fn check<P, K>(run: &Run, name: &str, d: &Diagram, reduced: bool, points: &[(i64, i64)])
+fn check<P, K>(run: &Run, name: &str, d: &Diagram, reduced: bool, points: &[(i64, i64)], with_cube: bool)
 where
     K: EucRing + Bridge,
     for<'x> &'x K: EucRingOps<K>,
@@ -260,10 +260,12 @@ where
                 evaluated.insert(i as i64, m);
             }
         }
-        let cube = khovanov::<K::Ref>(d, &hr, &tr, reduced.then(|| base_edge(d))).total;
         let skey = format!("{key}:eval(h={h0},t={t0})");
-        if let Some(df) = diff_tables(&evaluated, &cube) {
-            run.fail(&skey, &format!("complex built with polynomial parameters and evaluated differs from the cube: {df}"), detail());
+        if with_cube {
+            let cube = khovanov::<K::Ref>(d, &hr, &tr, reduced.then(|| base_edge(d))).total;
+            if let Some(df) = diff_tables(&evaluated, &cube) {
+                run.fail(&skey, &format!("complex built with polynomial parameters and evaluated differs from the cube: {df}"), detail());
+            }
         }
         let (hk, tk) = (K::from_ref(&hr), K::from_ref(&tr));
         match catch(|| total_table(&KhHomology::<K>::new(&link, &hk, &tk, reduced))) {
@@ -297,18 +299,47 @@ fn main() {
             run.sample(json!({"diagram": name, "pd": d.pd(), "evaluation_points": pts.len()}));
         }
         for reduced in [false, true] {
-            check::<i64, i64>(&run, name, d, reduced, &[(0, 0)]);
-            check::<Ratio<i64>, Ratio<i64>>(&run, name, d, reduced, &[(0, 0)]);
-            check::<FF2, FF2>(&run, name, d, reduced, &[(0, 0)]);
-            check::<FF<3>, FF<3>>(&run, name, d, reduced, &[(0, 0)]);
-            check::<Poly<'H', i64>, i64>(&run, name, d, reduced, pts);
-            check::<Poly<'T', i64>, i64>(&run, name, d, reduced, pts);
-            check::<Poly2<'H', 'T', i64>, i64>(&run, name, d, reduced, pts);
-            check::<Poly<'H', Ratio<i64>>, Ratio<i64>>(&run, name, d, reduced, &small);
-            check::<Poly<'H', FF2>, FF2>(&run, name, d, reduced, &[(0, 0), (1, 0)]);
+            check::<i64, i64>(&run, name, d, reduced, &[(0, 0)], true);
+            check::<Ratio<i64>, Ratio<i64>>(&run, name, d, reduced, &[(0, 0)], true);
+            check::<FF2, FF2>(&run, name, d, reduced, &[(0, 0)], true);
+            check::<FF<3>, FF<3>>(&run, name, d, reduced, &[(0, 0)], true);
+            check::<Poly<'H', i64>, i64>(&run, name, d, reduced, pts, true);
+            check::<Poly<'T', i64>, i64>(&run, name, d, reduced, pts, true);
+            check::<Poly2<'H', 'T', i64>, i64>(&run, name, d, reduced, pts, true);
+            check::<Poly<'H', Ratio<i64>>, Ratio<i64>>(&run, name, d, reduced, &small, true);
+            check::<Poly<'H', FF2>, FF2>(&run, name, d, reduced, &[(0, 0), (1, 0)], true);
         }
     });
+    // ---- table links beyond the reach of the cube reference -------------------------------------------
+    // non-alternating links and knots (quick: links L*n* with 6..=9 crossings and the non-alternating knots 8_19..8_21,
+    // 9_42..9_49; thorough: every table entry with <= 9 crossings and the L10n* links), each several times because the elimination order is
+    // hash-seeded: d∘d = 0, degrees, homogeneity with reference arithmetic, and "evaluated = built
+    // directly" at a few points; no cube comparison (seed
+    // `C05-stack-keeps-genus-when-glued-along-arcs` shows in ~15 % of the calls on such links only)
+    {
+        let reps = if th { 12 } else { 8 };
+        let nonalt_knots = ["table:8_19", "table:8_20", "table:8_21", "table:9_42", "table:9_43", "table:9_44", "table:9_45", "table:9_46", "table:9_47", "table:9_48", "table:9_49"];
+        let tab: Vec<(String, Diagram)> = table_family(if th { 10 } else { 9 }, true)
+            .into_iter()
+            .filter(|(n, d)| (th && d.n <= 9) || (d.n >= 6 && (n.contains('n') || nonalt_knots.contains(&n.as_str()))))
+            .collect();
+        run.add("table_links", tab.len() as u64);
+        let jobs: Vec<(usize, usize)> = (0..tab.len()).flat_map(|i| (0..reps).map(move |r| (i, r))).collect();
+        run.par_for(jobs.len(), |j| {
+            if run.over_budget() {
+                run.cap("wall budget reached (table links)");
+                return;
+            }
+            let (i, r) = jobs[j];
+            let (name, d) = &tab[i];
+            let name = format!("{name}#{r}");
+            check::<i64, i64>(&run, &name, d, false, &[(0, 0)], false);
+            check::<Poly<'H', i64>, i64>(&run, &name, d, false, &[(0, 0), (2, 0), (1, 0)], false);
+            check::<Poly2<'H', 'T', i64>, i64>(&run, &name, d, false, &[(0, 1), (2, 1)], false);
+        });
+    }
     let coverage = json!({
+        "table_links_beyond_the_cube": run.get("table_links"),
         "evaluations": run.get("evaluations"),
         "distinct_nontrivial": run.get("complexes"),
         "rule": "all planar diagrams with <= 3 crossings + braid closures x rings {Z,Q,F2,F3,Z[H],Z[T],Z[H,T],Q[H],F2[H]} x reduced/unreduced (reduced only with t = 0); each (diagram, ring, reduced) complex is distinct; differentials are read entry by entry and multiplied with reference polynomial arithmetic; every complex over a polynomial ring is evaluated at every point of the (h,t) grid and its reference homology compared with the directly built complex and with the reference cube",
